@@ -331,12 +331,24 @@ Proof.
   apply slice_view_nested. exact Hwf.
 Qed.
 
+(* free() during which sdram_free raises: nothing is freed, nothing changes *)
+Lemma free_fault_step : forall st st' out,
+  step st OFreeFault = (st', out) ->
+  st' = st /\ o_calls out = []
+  /\ (o_res out = Failed 2 \/ o_res out = Failed 0 \/ o_res out = OtherError).
+Proof.
+  intros st st' out H. unfold step, step_with in H.
+  destruct (st_views st); [|destruct (st_freed st)]; inversion H; subst; cbn; auto.
+Qed.
+
 Lemma step_inv : forall st o st' out,
   views_inside st -> step st o = (st', out) ->
   views_inside st' /\ confined_event (st, o, out) /\ nested_event (st, o, out).
 Proof.
   intros st o st' out Hin Hstep. unfold step, step_with in Hstep.
-  destruct o as [i vo|].
+  destruct o as [i vo| |].
+  3:{ fold (step st OFreeFault) in Hstep. destruct (free_fault_step _ _ _ Hstep) as (E & Ec & _). subst st'.
+      split; [exact Hin|]. split; [exact Ec | exact I]. }
   - destruct (nth_error (st_views st) i) as [v|] eqn:Hnth.
     2:{ inversion Hstep; subst st' out. split; [exact Hin|]. split.
         - cbn. intros c [].
@@ -401,7 +413,9 @@ Lemma step_ranges_fixed : forall st o st' out i v,
              /\ (dead (st_freed st) v = true -> dead (st_freed st') v' = true).
 Proof.
   intros st o st' out i v Hstep Hnth. unfold step, step_with in Hstep.
-  destruct o as [j vo|].
+  destruct o as [j vo| |].
+  3:{ fold (step st OFreeFault) in Hstep. destruct (free_fault_step _ _ _ Hstep) as (E & _). subst st'.
+      exists v. repeat split; try assumption; tauto. }
   - destruct (nth_error (st_views st) j) as [u|] eqn:Hj.
     2:{ inversion Hstep; subst. exists v. repeat split; try assumption; tauto. }
     destruct (vstep (st_freed st) (st_mem st) u vo) as [[u' nw] out0] eqn:Hv.
@@ -840,7 +854,8 @@ Proof.
   unfold views_inside in Hin.
   destruct (st_views st) as [|root t] eqn:Hviews; [discriminate|].
   cbn [nth_error] in Hr'. injection Hr' as Hr'. subst r'.
-  destruct o as [i vo|]; cbn in Hconf.
+  destruct o as [i vo| |]; cbn in Hconf.
+  3:{ rewrite Hconf in Hc. destruct Hc. }
   - destruct (Hconf c Hc) as (v & Hv & Hcw). rewrite Hviews in Hv.
     assert (Hvin : inside (v_start root) (v_end root) v) by (eapply nth_error_Forall; eassumption).
     rewrite Hrs, Hre in Hvin.
